@@ -538,6 +538,27 @@ def _check_precedence(ctx, spec, n, origin, rng):
         ctx.count('eval_calls')
         if not same(got, 7.0):
             ctx.violation('eval-precedence', f'locals did not override variable/helper {helper!r}: {got!r}', case)
+    # the same locals dict handed to two calls, the variables having moved in between (and to a second container with the same
+    # names): each call binds every variable to its series *as it is now*; the caller's dict holds what the caller put there
+    c = VectorContainer(spec.make())
+    c.add_variable('X', base)
+    c.add_variable('Y', base * 0.5)
+    c2 = VectorContainer(spec.make())
+    c2.add_variable('X', base - 40)
+    c2.add_variable('Y', base * 3)
+    mine = {'k': 10.0}
+    case = {'kind': 'precedence', 'span_kind': spec.kind, 'n': n, 'origin': origin, 'helper': 'reused-locals'}
+    ctx.evaluation(('reused-locals', spec.kind, n), nontrivial=True)
+    r1 = c.eval('X * k + Y + lag(X, 0)', locals=mine)
+    c.X = base + 7
+    r2 = c.eval('X * k + Y + lag(X, 0)', locals=mine)
+    r3 = c2.eval('X * k + Y + lag(X, 0)', locals=mine)
+    ctx.count('eval_calls', 3)
+    ctx.count('reused_locals_probes')
+    if not (same(r1, base * 10 + base * 0.5 + base) and same(r2, (base + 7) * 10 + base * 0.5 + base + 7) and same(r3, (base - 40) * 10 + base * 3 + base - 40)):
+        ctx.violation('eval-value', f'one locals dict passed to three eval() calls ({spec.kind}): results {r1!r}, {r2!r}, {r3!r} do not all use the variables\' current series', case)
+    if sorted(mine) != ['k'] or mine['k'] != 10.0:
+        ctx.violation('eval-value', f'eval() left the caller\'s locals dict holding {sorted(mine)} (the caller supplied only "k"): whatever reads it next sees names the caller never defined', case)
     # helpers are reachable when nothing overrides them
     c = VectorContainer(spec.make())
     c.add_variable('X', base)
